@@ -628,28 +628,55 @@ def own(ctx):
         if fld["name"] in ("session", "message_queue"):
             ok = not re.search(r"\b(Arc|Rc|Weak|&)", fld["ty"])
             out.append(Inst("OWN", "context-field:%s" % fld["name"], ok, "src/client/context.rs", fld["ty"], "owned by Context"))
-    # O5
+    # O5: once the context is gone a failed enqueue / a cancelled receiver ends the operation with an error: on the
+    # Err edge of the test of that result no normal (Ok) return is reachable. Stated on the flattened operation, so it
+    # does not matter whether `?` is used, whether the enqueue-and-await lives in a shared helper, or how the awaited
+    # value is unwrapped afterwards.
+    def err_edge_outcomes(body, is_value):
+        """For every switch on the discriminant of a Result that is_value(origin) accepts: (block, kinds of the
+        exits reachable from its Err edge)."""
+        found = []
+        all_exits = exits(ctx, body)
+        for d in sorted(body.reach):
+            si = body.switch_info(d)
+            if not si or si["kind"] != "discr" or si.get("adt") != "std::result::Result":
+                continue
+            o = body.origin({"pl": si["place"]}, through_calls=False)
+            if not is_value(o):
+                continue
+            err_succ = [bb for v, bb in si["targets"] if v == 1]
+            if not err_succ:
+                listed = {v for v, _ in si["targets"]}
+                err_succ = [si["otherwise"]] if 1 not in listed and si["otherwise"] is not None else []
+            for es in err_succ:
+                reach = body.reachable_from(es)
+                kinds = sorted({x["kind"] for x in all_exits if x["bb"] in reach})
+                found.append((d, kinds))
+        return found
     for name, body in ctx.handle_ops().items():
         enq = [e for e in ctx.effects(body) if e.kind == "Enqueue"]
-        res = [e for e in exits(ctx, body) if e["kind"] == "residual"]
         for e in enq:
-            prop = [x for x in res if x["cause"]["kind"] == "enqueue-failed" and body.dominates(e.inner_bb, x["bb"]) and x["try_bb"] is not None and _feeds(body, e.inner_bb, x)]
-            out.append(Inst("OWN", "%s:enqueue-propagated@%s" % (name, len([o for o in out if o.key.startswith("OWN:%s:enqueue" % name)])), len(prop) == 1, e.site(),
-                            "failed enqueue %s" % ("reaches `?`" if prop else "is ignored"), "fails immediately with ContextExited once the context is gone"))
-        res_exits = [x for x in exits(ctx, body) if x["kind"] == "residual" and x["try_bb"] is not None]
+            outs = err_edge_outcomes(body, lambda o, e=e: o[0] == "call" and o[1] == e.inner_bb)
+            prop = bool(outs) and all(k and not ({"ok", "other", "callret"} & set(k)) for _, k in outs)
+            out.append(Inst("OWN", "%s:enqueue-propagated@%s" % (name, len([o for o in out if o.key.startswith("OWN:%s:enqueue" % name)])), prop, e.site(),
+                            "failed enqueue %s" % ("ends the operation with an error" if prop else "is ignored or may still end in a normal return (exits reachable from the failure: %s)" % [k for _, k in outs]),
+                            "fails immediately with ContextExited once the context is gone"))
         for a in body.awaits():
             t = body.term(a["poll_bb"])
             st = (t["callee"].get("self_ty") or "") + " " + (t["callee"].get("resolved") or "")
             if "oneshot::Receiver" in st:
-                # Canceled (context gone) must reach `?`, i.e. become ContextExited for the caller
+                # Canceled (context gone) must end in an error return, i.e. become ContextExited for the caller
                 pd = t["dest"]["l"]
-                prop = False
-                for x in res_exits:
-                    o = body.origin(x["try_op"], through_calls=False) if x.get("try_op") is not None else ("?",)
-                    if o[0] == "place" and o[1]["l"] == pd and body.dominates(a["ready_bb"], x["try_bb"]):
-                        prop = True
+
+                def awaited(o, pd=pd):
+                    if o[0] != "place" or o[1]["l"] != pd:
+                        return False
+                    pr = [p for p in o[1]["p"] if p != "deref"]
+                    return len(pr) == 2 and isinstance(pr[0], dict) and pr[0].get("dc") == "Ready"
+                outs = err_edge_outcomes(body, awaited)
+                prop = bool(outs) and all(k and not ({"ok", "other", "callret"} & set(k)) for _, k in outs)
                 out.append(Inst("OWN", "%s:await-result-propagated@%s" % (name, len([o_ for o_ in out if o_.key.startswith("OWN:%s:await-result" % name)])), prop, body.site(a["poll_bb"]),
-                                "the receiver's result %s" % ("reaches `?` directly (Canceled -> ContextExited)" if prop else "is transformed before / instead of `?` (a cancelled receiver may be reported as success)"),
+                                "a cancelled receiver %s" % ("always ends the operation with an error (Canceled -> ContextExited)" if prop else "may be reported as success or is not tested (exits reachable from Canceled: %s)" % [k for _, k in outs]),
                                 "every operation still pending when the context is dropped completes with ContextExited"))
             ok = "oneshot::Receiver" in st
             out.append(Inst("OWN", "%s:await@%s" % (name, len([o for o in out if o.key.startswith("OWN:%s:await" % name)])), ok, body.site(a["poll_bb"]),
